@@ -32,10 +32,15 @@ func writeStreamEstablishHeader(w io.Writer, msg *StreamEstablish) (int, error) 
 func readAtLeast(r io.Reader, n, min int, buf []byte) (int, error) {
 	for n < min {
 		nr, err := r.Read(buf[n:])
+		// an io.Reader may return its final bytes together with the error
+		// (e.g. n > 0, io.EOF): count them before looking at the error.
+		n += nr
 		if err != nil {
+			if n >= min {
+				break
+			}
 			return n, err
 		}
-		n += nr
 	}
 	return n, nil
 }
